@@ -178,7 +178,7 @@ impl Prop for C13 {
         v.extend(check_readback(s, &image_ref, &rcfg, &model, rb, ctx, "sched-r"));
         // repair: intact and one cut, both modes, vs the memory run
         let ocfg = ArcCfg { variant: case.cfg.variant.clone(), layers: 0, level: 0, recipients: 0, reader: 0, rng_seed: 0, key_seed: 0 };
-        let plain = ReadCfg { keys: vec![], sched: Sched::Full, budget: u64::MAX / 2, error_at_read: None, spill_path: None, explicit_auth_mode: false };
+        let plain = ReadCfg { keys: vec![], sched: Sched::Full, budget: u64::MAX / 2, error_at_read: None, spill_path: None, explicit_auth_mode: false, replay: None };
         let len = image_ref.len();
         let cut = (len as u64 * case.param("cut_pm", 500) as u64 / 1000) as usize;
         let lay = layout_of(&image_ref, &case.cfg, vc.chunk as usize, vc.block as usize).ok();
